@@ -8,6 +8,7 @@ package rules
 import (
 	"fmt"
 	"go/ast"
+	"go/token"
 	"go/types"
 	"sort"
 	"strings"
@@ -18,7 +19,7 @@ import (
 func init() {
 	register(Rule{
 		Name:  "PIPE",
-		Props: []string{"C01", "C02", "C03", "C04", "C06"},
+		Props: []string{"C01", "C02", "C03", "C04", "C05", "C06"},
 		Doc:   "phase order of Flatten, clone before rewrite, uniqified names only, writers of the definitions section, holder kinds of the rewriters, naming guards",
 		Run:   pipeRules,
 	})
@@ -115,7 +116,14 @@ func pipeRules(c *Ctx) {
 				if cd.Neg {
 					pol = "!"
 				}
-				others = append(others, pol+exprStr(cd.Expr))
+				// fields of the options are named canonically ("opts.<Field>") whatever the parameter is called
+				txt := exprStr(cd.Expr)
+				if sel, isSel := core.Unparen(cd.Expr).(*ast.SelectorExpr); isSel {
+					if fv := core.FieldOf(info, sel); fv != nil && strings.HasSuffix(core.OwnerStruct(c.P, fv), ".FlattenOpts") {
+						txt = "opts." + fv.Name()
+					}
+				}
+				others = append(others, pol+txt)
 			}
 		}
 		sort.Strings(others)
@@ -140,6 +148,19 @@ func pipeRules(c *Ctx) {
 			lastPos = ps[0].call.Pos()
 		}
 	}
+	// C05: the same three phases are what removes the $refs in Expand mode (full expansion, import of the circular
+	// remote $refs that survive, pointer stripping): they run unconditionally, so in Expand mode too
+	for _, nm := range []string{"expand", "import", "pointers"} {
+		if ps := byName[nm]; len(ps) == 1 {
+			errOnly, others := condsOf(ps[0].call)
+			c.S.Decide(errOnly, "C05", "PIPE-ORDER", "Flatten/"+nm, c.P.Pos(ps[0].call.Pos()),
+				"the "+nm+" phase runs in every mode, Expand included",
+				fmt.Sprintf("the %s phase is conditional on [%s]: in Expand mode the $refs it is responsible for can remain", nm, strings.Join(others, ", ")))
+		} else {
+			c.S.Decide(false, "C05", "PIPE-ORDER", "Flatten/"+nm, c.P.Pos(flat.Decl.Pos()), "", fmt.Sprintf("Flatten calls the %s phase %d times (expected exactly once)", nm, len(ps)))
+		}
+	}
+	c.expandModeRule(flat)
 	// inline naming: only under !Minimal && !Expand, between import and pointers
 	if ps := byName["inline"]; len(ps) == 1 {
 		_, others := condsOf(ps[0].call)
@@ -195,12 +216,43 @@ func pipeRules(c *Ctx) {
 			"no later phase stores into the shared parameters/responses sections", "a later phase writes the shared sections again: "+strings.Join(bad, "; "))
 	}
 
-	c.pipeClone(namerName, clone, save)
+	c.pipeClone(c.namerCore(namerName, save), clone, save)
 	c.pipeSaveName(save)
 	c.pipeWhoWritesDefs(flat, save)
 	c.pipeHolders()
 	c.uniqRules()
+	c.emptyNameRule()
 	c.complexMove(namerName)
+}
+
+// namerCore: the function that does the naming proper, by role: below the namer's entry point, the function that
+// calls both the save helper and replace.RewriteSchemaToRef (the entry point itself on the pinned tree).
+func (c *Ctx) namerCore(entry, save *core.FuncInfo) *core.FuncInfo {
+	has := func(fi *core.FuncInfo) bool {
+		saves, rewrites := false, false
+		for _, call := range calls(fi.Decl.Body) {
+			callee := c.P.StaticCallee(fi, call)
+			if callee == nil {
+				continue
+			}
+			if callee == save.Obj {
+				saves = true
+			}
+			if callee.Name() == "RewriteSchemaToRef" {
+				rewrites = true
+			}
+		}
+		return saves && rewrites
+	}
+	if has(entry) {
+		return entry
+	}
+	for _, fi := range core.SortedSet(c.P.Reachable(entry)) {
+		if fi.Pkg.PkgPath == core.ModPath && has(fi) {
+			return fi
+		}
+	}
+	return entry
 }
 
 // pipeClone (C01): the namer saves a clone taken before the holder is overwritten.
@@ -488,10 +540,228 @@ func (c *Ctx) uniqRules() {
 	}
 }
 
+// expandModeRule (C05, PIPE-EXPANDMODE): the expansion phase hands spec.ExpandSpec the option SkipSchemas; with Expand
+// it must be false (schemas are expanded too), which the code base expresses as `!opts.Expand`. The value is followed
+// from the ExpandOptions literal through the parameter of the helper that builds it to the argument at the call.
+func (c *Ctx) expandModeRule(flat *core.FuncInfo) {
+	n := 0
+	for _, fi := range core.SortedSet(c.P.Reachable(flat)) {
+		info := c.info(fi)
+		for _, call := range calls(fi.Decl.Body) {
+			cal := c.P.CalleeAny(fi, call)
+			if cal == nil || cal.FullName() != "github.com/go-openapi/spec.ExpandSpec" || len(call.Args) != 2 {
+				continue
+			}
+			if !core.IsSpecType(info.TypeOf(call.Args[0]), "Swagger") {
+				continue
+			}
+			n++
+			skip := c.skipSchemasValue(fi, call.Args[1], 0)
+			ok, what := false, "cannot be determined"
+			if skip != nil {
+				sinfo := c.info(skip.fi)
+				for hops := 0; hops < 3; hops++ {
+					o := core.ObjOf(sinfo, skip.e)
+					if _, isID := core.Unparen(skip.e).(*ast.Ident); !isID || o == nil {
+						break
+					}
+					defs := c.P.Locals(skip.fi).Defs[o]
+					if len(defs) != 1 || defs[0].Kind != core.DefAssign {
+						break
+					}
+					skip.e = defs[0].Expr
+				}
+				what = exprStr(skip.e)
+				if tv, isC := sinfo.Types[skip.e]; isC && tv.Value != nil && tv.Value.String() == "false" {
+					ok = true
+				}
+				if u, isU := core.Unparen(skip.e).(*ast.UnaryExpr); isU && u.Op == token.NOT {
+					if sel, isSel := core.Unparen(u.X).(*ast.SelectorExpr); isSel {
+						if fv := core.FieldOf(sinfo, sel); fv != nil && fv.Name() == "Expand" && strings.HasSuffix(core.OwnerStruct(c.P, fv), ".FlattenOpts") {
+							ok = true
+						}
+					}
+				}
+			}
+			c.S.Decide(ok, "C05", "PIPE-EXPANDMODE", fi.QName()+"/ExpandSpec", c.P.Pos(call.Pos()),
+				"the expander skips schemas exactly when Expand is off (SkipSchemas = !opts.Expand)",
+				"the expander of the expansion phase is told SkipSchemas = "+what+", which is not `!opts.Expand` (nor false): in Expand mode schema $refs are not expanded and remain in the output of an acyclic bundle")
+		}
+	}
+	if n < 1 {
+		c.S.Undecided("C05", "PIPE-EXPANDMODE", "anchor", "-", "no call of spec.ExpandSpec on the root document below Flatten")
+	}
+}
+
+type exprIn struct {
+	fi *core.FuncInfo
+	e  ast.Expr
+}
+
+// skipSchemasValue: the expression that ends up in ExpandOptions.SkipSchemas for this options argument.
+func (c *Ctx) skipSchemasValue(fi *core.FuncInfo, opt ast.Expr, depth int) *exprIn {
+	if depth > 3 {
+		return nil
+	}
+	info := c.info(fi)
+	opt = core.Unparen(opt)
+	if u, ok := opt.(*ast.UnaryExpr); ok && u.Op == token.AND {
+		opt = core.Unparen(u.X)
+	}
+	switch x := opt.(type) {
+	case *ast.Ident:
+		if defs := c.P.Locals(fi).Defs[core.ObjOf(info, x)]; len(defs) == 1 && defs[0].Kind == core.DefAssign {
+			return c.skipSchemasValue(fi, defs[0].Expr, depth+1)
+		}
+	case *ast.CompositeLit:
+		for _, el := range x.Elts {
+			if kv, ok := el.(*ast.KeyValueExpr); ok {
+				if id, ok := kv.Key.(*ast.Ident); ok && id.Name == "SkipSchemas" {
+					return &exprIn{fi, kv.Value}
+				}
+			}
+		}
+		// absent: the zero value, false
+		return &exprIn{fi, ast.NewIdent("false")}
+	case *ast.CallExpr:
+		callee := c.P.StaticCallee(fi, x)
+		g := c.P.Funcs[callee]
+		if callee == nil || g == nil || g.Decl == nil || g.Decl.Body == nil {
+			return nil
+		}
+		// the helper returns a literal whose SkipSchemas is one of its parameters
+		var res *exprIn
+		ast.Inspect(g.Decl.Body, func(m ast.Node) bool {
+			ret, ok := m.(*ast.ReturnStmt)
+			if !ok || len(ret.Results) != 1 {
+				return true
+			}
+			if v := c.skipSchemasValue(g, ret.Results[0], depth+1); v != nil {
+				if idx, isParam := c.paramIndexOf(g, core.ObjOf(c.info(g), v.e)); isParam && idx < len(x.Args) {
+					res = &exprIn{fi, x.Args[idx]}
+				} else {
+					res = v
+				}
+			}
+			return true
+		})
+		return res
+	}
+	return nil
+}
+
+// emptyNameRule (C02, GUARD-EMPTYNAME): in the loop over candidate names that hands each name to the unique-name
+// function, the only candidates skipped are the ones that are empty as delivered. A skip on the *transformed* name
+// (the loop variable reassigned from a call, or a local holding the mangled name) silently drops targets whose name
+// mangles to the empty string — the unique-name function is what turns those into a generated name — and the
+// anonymous pointer is left in place while Flatten reports success.
+func (c *Ctx) emptyNameRule() {
+	n := 0
+	for _, fi := range c.P.SortedFuncs() {
+		if fi.Pkg.PkgPath != core.ModPath {
+			continue
+		}
+		info := c.info(fi)
+		ast.Inspect(fi.Decl.Body, func(nd ast.Node) bool {
+			rs, ok := nd.(*ast.RangeStmt)
+			if !ok || rs.Value == nil {
+				return true
+			}
+			rv := core.ObjOf(info, rs.Value)
+			if rv == nil || !core.IsString(rv.Type()) {
+				return true
+			}
+			// the statement of the body that calls the unique-name function
+			uniqAt := -1
+			for i, st := range rs.Body.List {
+				for _, call := range calls(st) {
+					if callee := c.P.StaticCallee(fi, call); callee != nil && c.isUniqifier(callee) {
+						uniqAt = i
+					}
+				}
+				if uniqAt >= 0 {
+					break
+				}
+			}
+			if uniqAt < 0 {
+				return true
+			}
+			n++
+			reassigned := false
+			bad := ""
+			fromCall := func(x ast.Expr) bool {
+				x = core.Unparen(x)
+				if _, isCall := x.(*ast.CallExpr); isCall {
+					return true
+				}
+				if o := core.ObjOf(info, x); o != nil && o != rv {
+					for _, d := range c.P.Locals(fi).Defs[o] {
+						if d.Expr != nil {
+							if _, isCall := core.Unparen(d.Expr).(*ast.CallExpr); isCall {
+								mentions := false
+								ast.Inspect(d.Expr, func(m ast.Node) bool {
+									if id, ok := m.(*ast.Ident); ok && info.Uses[id] == rv {
+										mentions = true
+									}
+									return true
+								})
+								if mentions {
+									return true
+								}
+							}
+						}
+					}
+				}
+				return false
+			}
+			for _, st := range rs.Body.List[:uniqAt] {
+				switch x := st.(type) {
+				case *ast.AssignStmt:
+					for _, l := range x.Lhs {
+						if core.ObjOf(info, l) == rv && x.Tok == token.ASSIGN {
+							reassigned = true
+						}
+					}
+				case *ast.IfStmt:
+					skips := false
+					ast.Inspect(x.Body, func(m ast.Node) bool {
+						if b, ok := m.(*ast.BranchStmt); ok && b.Tok == token.CONTINUE {
+							skips = true
+						}
+						return true
+					})
+					if !skips {
+						continue
+					}
+					for _, cd := range core.SplitCond(x.Cond, false) {
+						tested, empty, isE := core.EmptyTest(info, cd)
+						if !isE || !empty {
+							continue
+						}
+						switch {
+						case core.ObjOf(info, tested) == rv && reassigned:
+							bad = "the loop variable is reassigned before it is tested for emptiness at " + c.P.Pos(x.Pos())
+						case fromCall(tested):
+							bad = "the name tested for emptiness at " + c.P.Pos(x.Pos()) + " is the result of a call on the candidate"
+						}
+					}
+				}
+			}
+			c.S.Decide(bad == "", "C02", "GUARD-EMPTYNAME", fi.QName(), c.P.Pos(rs.Pos()),
+				"only candidates that are empty as delivered are skipped; every other one reaches the unique-name function",
+				bad+": a target whose name mangles to the empty string is skipped instead of being given a generated name — its anonymous pointer (or inline schema) stays and Flatten still returns nil")
+			return true
+		})
+	}
+	if n < 1 {
+		c.S.Note("GUARD-EMPTYNAME: no loop over candidate names calling the unique-name function found")
+	}
+}
+
 // complexMove (C03): in the inline-naming phase the namer is called exactly for analysed-as-complex, non-$ref,
 // non-top-level schemas; and "complex" means not simple, not array, not map.
 func (c *Ctx) complexMove(namer *core.FuncInfo) {
-	fn := c.root("nameInlinedSchemas")
+	fn := c.inlineNamingPhase(namer)
 	if fn == nil {
 		// by role: the function called by Flatten that reaches the namer but not UpdateRefWithSchema
 		c.S.Undecided("C03", "GUARD-COMPLEXMOVE", "anchor", "-", "nameInlinedSchemas not found")
@@ -530,7 +800,7 @@ func (c *Ctx) complexMove(namer *core.FuncInfo) {
 				continue
 			}
 			if call2, ok := core.Unparen(cd.Expr).(*ast.CallExpr); ok && !cd.Neg {
-				if cal := c.P.StaticCallee(fn, call2); cal != nil && cal.Name() == "isAnalyzedAsComplex" {
+				if c.isComplexCall(fn, call2) {
 					hasComplex = true
 					continue
 				}
@@ -549,7 +819,7 @@ func (c *Ctx) complexMove(namer *core.FuncInfo) {
 		c.S.Decide(false, "C03", "GUARD-COMPLEXMOVE", fn.QName(), c.P.Pos(fn.Decl.Pos()), "", "the inline-naming phase never calls the namer")
 	}
 	// definition of "complex"
-	cx := c.root("AnalyzedSchema.isAnalyzedAsComplex")
+	cx := c.complexFn()
 	if cx == nil || len(cx.Decl.Body.List) != 1 {
 		c.S.Undecided("C03", "GUARD-COMPLEXDEF", "anchor", "-", "isAnalyzedAsComplex is not a single-return predicate")
 		return
